@@ -426,6 +426,7 @@ var replayMatched bool
 // Main is called from TestMain of every property package.
 func Main(m *testing.M) {
 	start := time.Now()
+	debug.SetGCPercent(400)
 	code := m.Run()
 	if replay != "" {
 		if !replayMatched && code == 0 {
